@@ -172,6 +172,7 @@ def run_rs_twin(ctx, case):
         clone2 = None
         if interleaved and clone is not None:
             clone2, _ = make_clone(state)
+        rng_bad = clone is not None and not rng_state_equal(state["random_state"], clone.get_state()["random_state"])
         with recs[0].patch():
             _, _, tr_orig, _, _ = rs_play(a, enc, recs[0], cont, tid_a, sug_a, restrict_on)
         sig = dict(searcher="RandomSearcher", facility="clone_from_state", debug_log=case["debug"],
@@ -189,6 +190,9 @@ def run_rs_twin(ctx, case):
             with recs[1].patch():
                 _, _, tr_b1, tid_b1, sug_b1 = rs_play(b, enc, recs[1], cont[:half], tid_b, sug_b, restrict_on)
             compare(tr_b1, "original_first_half")
+        if rng_bad:
+            results.append((cut, dict(sig, event="random_state_not_fully_restored", consumer="clone"),
+                            "after snapshot at %d: RandomState of the clone differs from the one get_state returned" % cut))
         if clone is None:
             obs_t = "None"
             results.append((cut, dict(sig, event="clone_raised_" + clone_exc), "clone_from_state raised " + clone_exc))
@@ -269,6 +273,10 @@ def run_gs_twin(ctx, case):
         state = b.get_state()
         clone = b.clone_from_state(roundtrip(state, case["pickle_state"]))
         clone2 = b.clone_from_state(state) if interleaved else None
+        if not rng_state_equal(state["random_state"], clone.get_state()["random_state"]):
+            results.append((cut, dict(searcher="GridSearcher", facility="clone_from_state", consumer="clone",
+                                      event="random_state_not_fully_restored"),
+                            "after snapshot at %d: RandomState of the clone differs from the one get_state returned" % cut))
         o_orig = play(a, cont, cut)
         o_b1 = play(b, cont[:half], cut) if interleaved else []      # the snapshot source goes on first
         o_clone = play(clone, cont, cut)
